@@ -8,9 +8,11 @@ from common import *  # noqa
 
 
 def modules():
+    """property modules claimed in MANIFEST.json"""
+    man = json.load(open(os.path.join(VERIF, "MANIFEST.json")))
     out = []
-    for p in sorted(glob.glob(os.path.join(VERIF, "harness", "c[0-9][0-9].py"))):
-        out.append(importlib.import_module(os.path.basename(p)[:-3]))
+    for c in man["checks"]:
+        out.append(importlib.import_module(c["property_id"].lower()))
     return out
 
 
@@ -19,21 +21,25 @@ def main():
     ok, out = gen_tables(["all"])
     print(out)
     if not ok:
-        print("setup: table generation failed")
-        return 1
-    with BuildLock():
-        ensure_makefile()
-        rc, out = run(["make", "-j16"], cwd=COQ, timeout=7200)
-    print(out[-3000:])
-    if rc != 0:
-        print("setup: coq build failed")
-        return 1
+        # a table generator that fails closed is reported by its own check
+        print("setup: some table generator failed (reported by the owning check)")
+    failed = []
     for m in modules():
+        prop = m.PROP
+        with BuildLock():
+            ensure_makefile()
+            rc, out = run(["make", "-j16", "Props/%s.vo" % prop], cwd=COQ, timeout=7200)
+        print("proofs %s: %s" % (prop, "ok" if rc == 0 else "FAILED"))
+        if rc != 0:
+            print(out[-1500:])
+            failed.append(prop)
         for (name, ev, fn) in getattr(m, "MODELS", []):
             ok, log = build_model(name, ev, fn)
             print("model %s: %s" % (name, "ok" if ok else "FAILED"))
             if not ok:
-                print(log[-2000:])
-                return 1
-    print("setup: ok")
+                print(log[-1500:])
+                failed.append(prop)
+    # best effort: a property whose build fails here is rebuilt (and the failure
+    # reported with the VIOLATION contract) by its own check
+    print("setup: done" + (" (failed: %s)" % ",".join(sorted(set(failed))) if failed else ""))
     return 0
